@@ -346,6 +346,17 @@ impl DspRuntime for WasmDspRuntime {
             // Snapshot the old global state before loading the new module.
             let old_global_data: Option<Vec<u64>> =
                 self.engine.get_global_state_data().map(|d| d.to_vec());
+            // The state storage grows on demand, so before the first dsp call it is
+            // still shorter than the layout the patch plan was computed from.
+            let old_global_data = old_global_data.map(|mut data| {
+                if let Some(skeleton) = &self.current_dsp_skeleton {
+                    let layout_size = skeleton.total_size() as usize;
+                    if data.len() < layout_size {
+                        data.resize(layout_size, 0);
+                    }
+                }
+                data
+            });
 
             let old_engine = std::mem::replace(&mut self.engine, *prepared_engine);
 
